@@ -785,6 +785,21 @@ pub fn run_c08<H: HB>(tier: Tier) -> Outcome {
             return out;
         }
     }
+    // LAST layer (a known finding lives here, so everything else has been explored before): the
+    // references iter_mut yields outlive the iterator. One explorer per kind, so that both kinds
+    // are looked at even though each stops at its first violation.
+    for d in [false, true] {
+        let mut c = base_cfg(prop, 3, &[0, 1], A_REACH & !A_CONVERT);
+        c.kinds = vec![d];
+        c.deep = false;
+        let uni = c.universe();
+        let mk = |ex: &mut Explorer<H>| {
+            for p in crate::probes::all_probes::<H>("C08-late-write", &uni) {
+                ex.probes.push(p);
+            }
+        };
+        run_closed::<H>(&mut out, &format!("late writes: references collected from iter_mut, iterator dropped, then a priority written ({})", if d { "DoublePriorityQueue" } else { "PriorityQueue" }), &c, &mk);
+    }
     out
 }
 
